@@ -83,7 +83,7 @@ def gen_dataset(rng, fmt):
         nf = rng.choice([1, 2, 3, 5, 8, 11])
         nd = rng.choice([1, 2, 3, 4, 8, 12, 16, 24])
     freq, fkind = gen.gen_freq(rng, nf, exact=exact)
-    order = rng.choice(["sorted", "sorted", "rotated", "reversed", "seam"])
+    order = rng.choice(["sorted", "sorted", "rotated", "reversed", "seam"] + (["shuffled", "shuffled"] if fmt == "funwave" else []))
     if fmt == "octopus":  # whole-degree directions
         dd = 360 // nd
         start = rng.choice([0, 0, dd // 2, rng.randint(0, dd - 1)])
@@ -609,6 +609,24 @@ def run_ww3(rng, ds, desc, d, opts=None):
     raw0 = xr.open_dataset(path)
     raw = raw0.load()
     raw0.close()
+    # the same file held in memory by plain xarray and converted twice with the matching reader: both conversions (and the
+    # in-memory native dataset afterwards) must be what the first one was
+    try:
+        from wavespectra.input.ww3 import from_ww3
+
+        rawm = xr.load_dataset(path)
+        before = np.array(rawm.efth.values, copy=True)
+        c1 = np.array(from_ww3(rawm).efth.values, dtype=float, copy=True)
+        c2 = np.array(from_ww3(rawm).efth.values, dtype=float, copy=True)
+        if c1.shape != c2.shape or not np.array_equal(c1, c2, equal_nan=True):
+            fails.append(("ww3", "converting the same in-memory native dataset a second time gives other energy densities "
+                                 f"(max ratio {np.nanmax(np.abs(c2) / np.where(c1 == 0, np.nan, np.abs(c1))) if c1.shape == c2.shape else 'shape'})",
+                          desc, None))
+        elif not np.array_equal(before, np.asarray(rawm.efth.values), equal_nan=True):
+            fails.append(("ww3", "from_ww3 changed the energy densities of the native dataset it was given", desc, None))
+        rawm.close()
+    except Exception as e:  # noqa
+        fails.append(("ww3", f"second conversion of the in-memory native dataset raised {type(e).__name__}: {e}", desc, None))
     A = np.asarray(ds.efth.transpose("time", "site", "freq", "dir").values, dtype=float)
     F = np.asarray(raw.efth.transpose("time", "station", "frequency", "direction").values, dtype=float)
     flat = [i for i in range(A.size) if not math.isnan(A.ravel()[i])]
